@@ -52,6 +52,9 @@ pub struct Scenario {
 	/// re-delivery: recovery must leave a node that carries on like one that never crashed
 	#[serde(default)]
 	pub continuation: Vec<String>,
+	/// height of the head before the action (evidence only: how often recovery steps back below it)
+	#[serde(default)]
+	pub old_head_height: u64,
 }
 
 fn hex_block(b: &Block) -> String {
@@ -560,6 +563,7 @@ fn prepare(ctx: &Ctx, r: &Recipe) -> Result<Prepared, Fail> {
 		all_blocks,
 		allowed_heads: allowed.into_iter().collect(),
 		continuation,
+		old_head_height: w.nodes[old_head].height(),
 	};
 	std::mem::forget(cb); // keep the directory
 	Ok(Prepared { dir, scenario })
@@ -633,6 +637,13 @@ pub fn sweep(ctx: &Ctx, r: &Recipe, counting: bool) -> PResult {
 					let Some(rep) = read_json(&out) else {
 						return Err(Fail::new("recovery-process-died", "the reopening process died without a report".to_string()));
 					};
+					if counting {
+						if let Some(h) = rep["head"]["Ok"].get(0).and_then(|x| x.as_u64()) {
+							if h < prep.scenario.old_head_height {
+								ev.class("restarts_with_head_below_the_old_head(allowed: an ancestor)");
+							}
+						}
+					}
 					judge(&prep.scenario, &reference, &rep).map_err(|f| {
 						Fail::new(
 							f.sig,
